@@ -8,7 +8,7 @@ m = re.search(r'suite_exit=(\d+) demo_with_change_exit=(\d+) demo_without_change
 checks = {}
 for mm in re.finditer(r'check (C\d+) exit=(\d+) (\d+) violation', log):
     checks[mm.group(1)] = {"exit": int(mm.group(2)), "violation_lines": int(mm.group(3)),
-                           "verdict": "caught" if mm.group(2) == '1' and int(mm.group(3)) > 0 else ("inconclusive" if mm.group(2) == '2' else "missed")}
+                           "verdict": "caught" if mm.group(2) == '1' and int(mm.group(3)) > 0 else ("inconclusive" if mm.group(2) == '2' else ("missed" if mm.group(1) == prop else "silent (run for information: the change was not written against this property)"))}
 demo = [f for f in os.listdir(d) if f.endswith('_test.go')]
 meta = {"breaks_property": prop, "needs_to_manifest": needs,
         "confirmed": {"existing_suite_passes_with_change": m.group(1) == '0', "demo_fails_with_change": m.group(2) != '0', "demo_passes_without_change": m.group(3) == '0'},
